@@ -558,6 +558,22 @@ mod e2e {
     fn count<'a>(p: &'a Parsed, n: &str) -> Vec<&'a String> { p.headers.iter().filter(|(k, _)| k.eq_ignore_ascii_case(n)).map(|(_, v)| v).collect() }
 
     // every response-level clause that should hold for any request; returns (case, observation)
+    // an application handler that reports an error: the connection still gets exactly one response, with an error status
+    pub struct FailingApp;
+    impl crate::application::Application for FailingApp {
+        fn execute(&self, _request: &crate::request::Request, _connection: &ConnectionInfo) -> Result<crate::response::Response, String> { Err("the handler failed".to_string()) }
+    }
+    pub fn check_failing_handler(raw: &[u8]) -> Option<(String, String)> {
+        let mut m = Mock { input: raw.to_vec(), pos: 0, out: vec![], chunk: 0, flush_fails: false };
+        let conn = ConnectionInfo { client: Address { ip: "127.0.0.1".into(), port: 4000 }, server: Address { ip: "127.0.0.1".into(), port: 7878 }, request_size: 16000 };
+        let r = panic::catch_unwind(panic::AssertUnwindSafe(|| { let _ = Server::process(&mut m, conn, FailingApp); }));
+        if r.is_err() { return Some(("c04_panic".into(), "panic with a handler that returns Err".into())); }
+        if m.out.is_empty() { return Some(("c04_no_response".into(), "nothing written when the handler returns Err".into())); }
+        match parse(&m.out) {
+            None => Some(("c05_unparseable".into(), format!("handler returns Err: {:?}", String::from_utf8_lossy(&m.out[..m.out.len().min(120)])))),
+            Some(p) => if p.status < 400 { Some(("c04_error_status".into(), format!("handler returns Err, status {}", p.status))) } else { None },
+        }
+    }
     // the legacy entry point (Server::process_request: one read into the configured buffer, App::handle_request)
     pub fn run_legacy(raw: &[u8], chunk: usize, flush_fails: bool) -> Result<Vec<u8>, String> {
         let mut m = Mock { input: raw.to_vec(), pos: 0, out: vec![], chunk, flush_fails };
@@ -621,6 +637,10 @@ mod e2e {
         for (i, (name, raw)) in corpus().iter().enumerate() {
             for (case, o) in check(name, raw) { h.hit("e2e", &case, "Server::process", &i.to_string(), &format!("{} :: {}", name, o)); }
         }
+        // a handler that fails, on a few well-formed requests
+        for (i, t) in ["GET / HTTP/1.1\r\nHost: localhost\r\n\r\n", "POST /x HTTP/1.1\r\nHost: localhost\r\nContent-Length: 3\r\n\r\nabc", "HEAD /a.txt HTTP/1.0\r\n\r\n"].iter().enumerate() {
+            if let Some((case, o)) = check_failing_handler(t.as_bytes()) { h.hit("e2e", &case, "Server::process", &format!("E{}", i), &o); }
+        }
         // the same requests through the legacy entry point (requests that fit its single read)
         for (i, (name, raw)) in corpus().iter().enumerate() {
             if raw.len() > 9000 { continue; }
@@ -631,6 +651,11 @@ mod e2e {
     pub fn replay(case: &str, input: &str) -> bool {
         setup();
         let c = corpus();
+        if input.starts_with('E') {
+            let t = ["GET / HTTP/1.1\r\nHost: localhost\r\n\r\n", "POST /x HTTP/1.1\r\nHost: localhost\r\nContent-Length: 3\r\n\r\nabc", "HEAD /a.txt HTTP/1.0\r\n\r\n"];
+            let i: usize = input[1..].parse().unwrap_or(0);
+            return match check_failing_handler(t[i % 3].as_bytes()) { Some((k, o)) => { if k == case { report("e2e", &k, "", input, &o); true } else { false } }, None => false };
+        }
         let legacy = input.starts_with('L');
         let (name, raw) = &c[input.trim_start_matches('L').parse::<usize>().unwrap()];
         let mut found = false;
